@@ -46,6 +46,10 @@ def run_property(pid, tier, repo, seed=0, strict=False):
         rules.append((f"{pid}-RM", "memoisation in and below the anchored "
                       "code depends on its arguments only",
                       lambda c, files=files: memo.rule(c, files)))
+        from . import nonedefault
+        rules.append((f"{pid}-RN", "optional (None-default) parameters of "
+                      "the anchored code are never dereferenced unguarded",
+                      lambda c, files=files: nonedefault.rule(c, files)))
     if tier == "thorough":
         rules += list(getattr(mod, "THOROUGH_RULES", []))
     for rid, _title, fn in rules:
